@@ -395,6 +395,50 @@ def netStep (n : Net) : NetEv → Net
 def netRun (n : Net) (evs : List NetEv) : Net := evs.foldl netStep n
 
 
+/-! ### any number of cooperating servers
+
+Servers are numbered; a message in flight carries its sender, and what its addressee sends in reply travels back
+to that sender (`Overlay.Process` answers the `ServerIdentity` of the envelope).  A request for a tree may be put
+to any server (`TransmitMsg` → `requestTree` asks the sender of the protocol message that named the tree). -/
+
+structure NNet where
+  ovl   : Nat → Ovl
+  inbox : Nat → List (Nat × Msg)      -- (sender, message) on its way to the server
+
+def updN {α : Type} (f : Nat → α) (s : Nat) (v : α) : Nat → α := fun s' => if s' = s then v else f s'
+
+inductive NNetEv where
+  | loc (s : Nat) (l : Local)
+  | ask (s p : Nat) (id version : Nat)       -- `s` asks `p` for tree `id`
+  | deliver (s : Nat) (i : Nat)
+  | redeliver (s : Nat) (i : Nat)
+  | drop (s : Nat) (i : Nat)
+
+/-- `s` handles `m` that came from `p`; its replies are on their way to `p` -/
+def NNet.handleAt (n : NNet) (s p : Nat) (m : Msg) (rest : List (Nat × Msg)) : NNet :=
+  let r := handle (n.ovl s) m
+  let inbox := updN n.inbox s rest
+  { ovl := updN n.ovl s r.1, inbox := updN inbox p (inbox p ++ r.2.map fun o => (s, o.toMsg)) }
+
+def nnetStep (n : NNet) : NNetEv → NNet
+  | .loc s l => { n with ovl := updN n.ovl s (localStep (n.ovl s) l) }
+  | .ask s p id v =>
+    let o := n.ovl s
+    { ovl := updN n.ovl s (localStep o (.reqSend id)),
+      inbox := if o.wouldRequest id then updN n.inbox p (n.inbox p ++ [(s, .requestTree id v)]) else n.inbox }
+  | .deliver s i =>
+    match (n.inbox s)[i]? with
+    | none => n
+    | some m => n.handleAt s m.1 m.2 ((n.inbox s).eraseIdx i)
+  | .redeliver s i =>
+    match (n.inbox s)[i]? with
+    | none => n
+    | some m => n.handleAt s m.1 m.2 (n.inbox s)
+  | .drop s i => { n with inbox := updN n.inbox s ((n.inbox s).eraseIdx i) }
+
+def nnetRun (n : NNet) (evs : List NNetEv) : NNet := evs.foldl nnetStep n
+
+
 /-! ### line-protocol driver -/
 namespace Drv
 
@@ -405,6 +449,7 @@ structure State where
   shapes  : List (Nat × (Nat × List (Nat × Nat × Nat))) := []   -- per tree label: roster label, items
   ovl     : Ovl := {}
   net     : Net := { ovl := fun _ => {}, inbox := fun _ => [] }
+  nnet    : NNet := { ovl := fun _ => {}, inbox := fun _ => [] }
 
 def init : State := {}
 
@@ -626,6 +671,53 @@ def netOp (st : State) (toks : List String) : State × String :=
     | _, _ => (st, "bad-op")
   | _ => (st, "bad-op")
 
+/-- how many servers the `m.` ops address (and the observation shows) -/
+def nSites : Nat := 4
+
+def showNNet (n : NNet) : String :=
+  " ".intercalate ((List.range nSites).map fun s =>
+    s!"S{s}:" ++ showStore (n.ovl s) ++ " to" ++ s!"{s}[" ++
+      " ".intercalate ((n.inbox s).map fun m => s!"{m.1}>" ++ showMsg m.2) ++ "]")
+
+def parseNSite (s : String) : Option Nat := s.toNat?.bind fun k => if k < nSites then some k else none
+
+/-- the N-server ops: `m.register <s> <tree label>`, `m.ask <s> <p> <tree id> <version>` (`s` asks `p ≠ s`),
+`m.deliver|m.dup|m.drop <s> <k>` (the message at position `k mod length` of that server's inbox; `idle` when nothing
+is in flight towards it), `m.unrequest|m.expire <s> <tree id>` -/
+def nnetOp (st : State) (toks : List String) : State × String :=
+  let fin := fun (n : NNet) => ({ st with nnet := n }, showNNet n)
+  match toks with
+  | ["m.register", s, l] =>
+    match parseNSite s, l.toNat?.bind (lookup st.trees) with
+    | some s, some t => fin (nnetStep st.nnet (.loc s (.register t)))
+    | _, _ => (st, "bad-op")
+  | ["m.ask", s, p, id, v] =>
+    match parseNSite s, parseNSite p, id.toNat?, v.toNat? with
+    | some s, some p, some id, some v =>
+      if v > 1 ∨ s = p then (st, "bad-op") else fin (nnetStep st.nnet (.ask s p id v))
+    | _, _, _, _ => (st, "bad-op")
+  | ["m.unrequest", s, id] =>
+    match parseNSite s, id.toNat? with
+    | some s, some id => fin (nnetStep st.nnet (.loc s (.unrequest id)))
+    | _, _ => (st, "bad-op")
+  | ["m.expire", s, id] =>
+    match parseNSite s, id.toNat? with
+    | some s, some id => fin (nnetStep st.nnet (.loc s (.expire id)))
+    | _, _ => (st, "bad-op")
+  | [op, s, k] =>
+    match parseNSite s, k.toNat? with
+    | some s, some k =>
+      let len := (st.nnet.inbox s).length
+      if op ≠ "m.deliver" ∧ op ≠ "m.dup" ∧ op ≠ "m.drop" then (st, "bad-op")
+      else if len = 0 then (st, "idle " ++ showNNet st.nnet)
+      else
+        let i := k % len
+        if op = "m.deliver" then fin (nnetStep st.nnet (.deliver s i))
+        else if op = "m.dup" then fin (nnetStep st.nnet (.redeliver s i))
+        else fin (nnetStep st.nnet (.drop s i))
+    | _, _ => (st, "bad-op")
+  | _ => (st, "bad-op")
+
 /-- `tree <label> <tree id> <roster label> <member position/node id:arity,…>` -/
 def treeOp (st : State) (l tid r items : String) : State × String :=
   match l.toNat?, tid.toNat?, r.toNat?.bind (lookup st.rosters), parseItems items with
@@ -821,7 +913,8 @@ def step (st : State) (toks : List String) : State × String :=
           | none => "learnt:none")
       | _ => (st, "bad-op")
     | _, _ => (st, "bad-op")
-  | op :: rest => if op.startsWith "n." then netOp st (op :: rest) else (st, "bad-op")
+  | op :: rest => if op.startsWith "n." then netOp st (op :: rest)
+    else if op.startsWith "m." then nnetOp st (op :: rest) else (st, "bad-op")
   | _ => (st, "bad-op")
 
 end Drv
